@@ -150,6 +150,9 @@ structure Leaf where
   senderAlive : Bool := true
   receiverAlive : Bool := true
   waker : Option Waker := none
+  /-- legacy capability API (capability/shell_request.rs, shell_stream.rs): result slot + waker under one mutex,
+      the resolve closure holds a weak reference; dropping either side wakes nobody -/
+  legacy : Bool := false
 deriving Repr, Inhabited
 
 /-- what a task shares with its `JoinHandle`s (and, for a command's first task, with its `AbortHandle`) -/
@@ -176,6 +179,18 @@ structure CmdSt where
   alive : Bool := true
 deriving Inhabited
 
+/-- a task of the QueuingExecutor: a command hosted by the CommandSpawner, or a legacy capability task -/
+inductive ExecTask where
+  | cmd (cid : Nat)
+  | legacy (b : Block)
+deriving Inhabited
+
+/-- where a block's outputs and spawned tasks go: its command's channels, or (legacy API) the core's -/
+inductive Sink where
+  | cmd (cid : Nat)
+  | core
+deriving Inhabited
+
 structure World where
   cmds : List CmdSt := []
   leaves : List Leaf := []
@@ -183,6 +198,9 @@ structure World where
   nextSerial : Nat := 0
   woken : List Nat := []        -- serials of CommandWakers whose `woken` flag is set
   execReady : List Nat := []    -- QueuingExecutor.ready_queue (root wakers push here)
+  execSpawn : List ExecTask := []  -- QueuingExecutor.spawn_queue
+  coreEffects : List Eff := []  -- Core.requests channel
+  coreEvents : List Ev := []    -- Core.capability_events channel
   aborts : List (Nat × Nat) := []  -- abort-handle name ↦ flag (meta index), kept by the harness
   anomalies : List String := []
 deriving Inhabited
@@ -203,14 +221,21 @@ def modCmd (w : World) (cid : Nat) (f : CmdSt → CmdSt) : World := { w with cmd
 def modLeaf (w : World) (l : Nat) (f : Leaf → Leaf) : World := { w with leaves := modifyNth w.leaves l f }
 def modMeta (w : World) (s : Nat) (f : Meta → Meta) : World := { w with metas := modifyNth w.metas s f }
 
-def newLeaf (w : World) (wk : Option Waker) : Nat × World :=
-  (w.leaves.length, { w with leaves := w.leaves ++ [{ waker := wk }] })
+def newLeaf (w : World) (wk : Option Waker) (legacy : Bool := false) : Nat × World :=
+  (w.leaves.length, { w with leaves := w.leaves ++ [{ waker := wk, legacy := legacy }] })
 
 def newMeta (w : World) : Nat × World :=
   (w.metas.length, { w with metas := w.metas ++ [{}] })
 
 def pushEffect (w : World) (cid : Nat) (e : Eff) : World := w.modCmd cid fun c => { c with effects := c.effects ++ [e] }
 def pushEvent (w : World) (cid : Nat) (e : Ev) : World := w.modCmd cid fun c => { c with events := c.events ++ [e] }
+
+def sinkEffect (w : World) : Sink → Eff → World
+  | .cmd cid, e => w.pushEffect cid e
+  | .core, e => { w with coreEffects := w.coreEffects ++ [e] }
+def sinkEvent (w : World) : Sink → Ev → World
+  | .cmd cid, e => w.pushEvent cid e
+  | .core, e => { w with coreEvents := w.coreEvents ++ [e] }
 
 def anomaly (w : World) (s : String) : World := { w with anomalies := w.anomalies ++ [s] }
 
@@ -283,6 +308,7 @@ def dropTask (dropCmd : Nat → World → World) (t : Task) (w : World) : World 
     dropped while pending (futures-channel does not clear `recv_task` when the receiver goes) -/
 def World.dropSender (w : World) (l : Nat) : World :=
   let lf := w.leaf l
+  if lf.legacy then w.modLeaf l fun lf => { lf with senderAlive := false } else
   let w := w.modLeaf l fun lf => { lf with senderAlive := false, waker := none }
   match lf.waker with
   | some wk => w.wake wk
@@ -343,9 +369,10 @@ def hostLoop (pollNext : Waker → Nat → World → Option (NextRes × World)) 
 
 /-- one poll of a block by the task `wk` of command `cid` -/
 def pollBlock (pollNext : Waker → Nat → World → Option (NextRes × World)) :
-    Nat → Waker → Nat → Block → World → Option (PollRes × World)
+    Nat → Waker → Sink → Block → World → Option (PollRes × World)
   | 0, _, _, _, _ => none
   | f + 1, wk, cid, .mk env cur rest, w =>
+    let legacy := match cid with | .core => true | .cmd _ => false
     let continue_ (env : Env) (rest : List Instr) (w : World) := pollBlock pollNext f wk cid (.mk env .idle rest) w
     let poll_ (cur : Pend) (w : World) := pollBlock pollNext f wk cid (.mk env cur rest) w
     match cur with
@@ -354,21 +381,26 @@ def pollBlock (pollNext : Waker → Nat → World → Option (NextRes × World))
       | [] => some (.ready env, w)
       | i :: rest' =>
         match i with
-        | .emit tag e => continue_ env rest' (w.pushEvent cid ⟨tag, env.eval e⟩)
-        | .notify n e => continue_ env rest' (w.pushEffect cid ⟨⟨n, env.eval e⟩, .never⟩)
+        | .emit tag e => continue_ env rest' (w.sinkEvent cid ⟨tag, env.eval e⟩)
+        | .notify n e => continue_ env rest' (w.sinkEffect cid ⟨⟨n, env.eval e⟩, .never⟩)
         | .req x n e =>
           -- first poll of ShellRequest: the receiver registers the waker, then the effect is sent (context.rs:180-190)
-          let (l, w) := w.newLeaf (some wk)
-          let w := w.pushEffect cid ⟨⟨n, env.eval e⟩, .once l⟩
+          let (l, w) := w.newLeaf (some wk) legacy
+          let w := w.sinkEffect cid ⟨⟨n, env.eval e⟩, .once l⟩
           some (.pending (.mk env (.req x l) rest'), w)
         | .stream x n e limit body =>
-          let (l, w) := w.newLeaf (some wk)
-          let w := w.pushEffect cid ⟨⟨n, env.eval e⟩, .many l⟩
+          let (l, w) := w.newLeaf (some wk) legacy
+          let w := w.sinkEffect cid ⟨⟨n, env.eval e⟩, .many l⟩
           some (.pending (.mk env (.streamWait x l 0 limit body) rest'), w)
         | .spawn h body =>
-          let (s, w) := w.newMeta
-          let w := w.modCmd cid fun c => { c with spawnQ := c.spawnQ ++ [⟨s, .mk env .idle body⟩] }
-          continue_ (env.setHandle h s) rest' w
+          match cid with
+          | .cmd c =>
+            let (s, w) := w.newMeta
+            let w := w.modCmd c fun c => { c with spawnQ := c.spawnQ ++ [⟨s, .mk env .idle body⟩] }
+            continue_ (env.setHandle h s) rest' w
+          | .core =>
+            -- legacy `ctx.spawn`: straight onto the executor's spawn queue, no join handle
+            continue_ env rest' { w with execSpawn := w.execSpawn ++ [.legacy (.mk env .idle body)] }
         | .await h =>
           match env.handle h with
           | none => continue_ env rest' w
@@ -386,7 +418,7 @@ def pollBlock (pollNext : Waker → Nat → World → Option (NextRes × World))
       match lf.queue with
       | v :: _ => continue_ (env.set x v) rest (w.dropReceiver l)
       | [] =>
-        if !lf.senderAlive then some (.pending (.mk env .reqDead rest), w.dropReceiver l)
+        if !lf.senderAlive && !lf.legacy then some (.pending (.mk env .reqDead rest), w.dropReceiver l)
         else some (.pending (.mk env cur rest), w.modLeaf l fun lf => { lf with waker := some wk })
     | .reqDead => some (.pending (.mk env cur rest), w)
     | .streamWait x l count limit body =>
@@ -436,10 +468,13 @@ def pollBlock (pollNext : Waker → Nat → World → Option (NextRes × World))
       | 0 => continue_ env rest w
       | k + 1 => some (.pending (.mk env (.selfwake k) rest), w.wake wk)
     | .host c m =>
-      match hostLoop pollNext f wk cid c m w with
-      | none => none
-      | some (true, w) => continue_ env rest (w.dropCmd c)
-      | some (false, w) => some (.pending (.mk env cur rest), w)
+      match cid with
+      | .core => none   -- hosting happens inside commands only
+      | .cmd me =>
+        match hostLoop pollNext f wk me c m w with
+        | none => none
+        | some (true, w) => continue_ env rest (w.dropCmd c)
+        | some (false, w) => some (.pending (.mk env cur rest), w)
 
 /-! ## The command executor (command/executor.rs) -/
 
@@ -448,7 +483,7 @@ inductive TaskState where
 deriving DecidableEq, Repr
 
 /-- `Command::run_task` (executor.rs:187-229) -/
-def runTaskF (poll : Waker → Nat → Block → World → Option (PollRes × World))
+def runTaskF (poll : Waker → Sink → Block → World → Option (PollRes × World))
     (cid tid : Nat) (w : World) : Option (TaskState × World) :=
   match (w.cmd cid).tasks.get? tid with
   | none => some (.missing, w)
@@ -456,7 +491,7 @@ def runTaskF (poll : Waker → Nat → Block → World → Option (PollRes × Wo
     if (w.getMeta t.serial).aborted then some (.completed, w) else
     let serial := w.nextSerial
     let w := { w with nextSerial := serial + 1 }
-    match poll (.task cid tid serial) cid t.fut w with
+    match poll (.task cid tid serial) (.cmd cid) t.fut w with
     | none => none
     | some (.ready _, w) => some (.completed, w)
     | some (.pending b, w) =>
@@ -544,7 +579,7 @@ def pollNextF (settle : Nat → World → Option World) (wk : Waker) (cid : Nat)
         | some w => if w.isDoneNow cid then some (.finished, w) else some (.pending, w)
 
 /-- tying the knot on the nesting depth -/
-def pollAt : Nat → Waker → Nat → Block → World → Option (PollRes × World)
+def pollAt : Nat → Waker → Sink → Block → World → Option (PollRes × World)
   | 0 => fun _ _ _ _ => none
   | d + 1 => pollBlock (pollNextF (runUntilSettledF (runTaskF (pollAt d)))) loopFuel
 
@@ -671,11 +706,9 @@ def isDone (cid : Nat) (w : World) : Option (Bool × World) :=
 
 structure Core where
   w : World := {}
-  prog : List (Nat × Cmd) := []
-  execSpawn : List Nat := []            -- spawn queue: commands wrapped by CommandSpawner (cid)
-  execTasks : Slab Nat := {}            -- live executor tasks (each hosts command `cid`)
-  requests : List Eff := []
-  capEvents : List Ev := []
+  /-- the DSL app: event tag ↦ command returned by `update` + legacy capability tasks it spawns -/
+  prog : List (Nat × Cmd × List (List Instr)) := []
+  execTasks : Slab ExecTask := {}       -- live executor tasks
   log : List Ev := []                   -- the app's model: every event update has applied
 deriving Inhabited
 
@@ -684,34 +717,39 @@ inductive RunTask where
 deriving DecidableEq, Repr
 
 /-- the CommandSpawner task: `while let Some(output) = command.next().await { forward }` -/
-def spawnerLoop : Nat → Nat → Nat → Core → Option (Bool × Core)
+def spawnerLoop : Nat → Nat → Nat → World → Option (Bool × World)
   | 0, _, _, _ => none
-  | f + 1, etid, cid, k =>
-    match pollNext (.root etid) cid k.w with
+  | f + 1, etid, cid, w =>
+    match pollNext (.root etid) cid w with
     | none => none
-    | some (.item (.effect e), w) => spawnerLoop f etid cid { k with w := w, requests := k.requests ++ [e] }
-    | some (.item (.event e), w) => spawnerLoop f etid cid { k with w := w, capEvents := k.capEvents ++ [e] }
-    | some (.finished, w) => some (true, { k with w := w.dropCmd cid })
-    | some (.pending, w) => some (false, { k with w := w })
+    | some (.item (.effect e), w) => spawnerLoop f etid cid (w.sinkEffect .core e)
+    | some (.item (.event e), w) => spawnerLoop f etid cid (w.sinkEvent .core e)
+    | some (.finished, w) => some (true, w.dropCmd cid)
+    | some (.pending, w) => some (false, w)
 
 /-- `QueuingExecutor::run_task` (single caller: the slot is never `Unavailable`) -/
 def execRunTask (etid : Nat) (k : Core) : Option (RunTask × Core) :=
   match k.execTasks.get? etid with
   | none => some (.missing, k)
-  | some cid =>
-    match spawnerLoop loopFuel etid cid k with
+  | some (.cmd cid) =>
+    match spawnerLoop loopFuel etid cid k.w with
     | none => none
-    | some (true, k) => some (.completed, { k with execTasks := (k.execTasks.remove etid).2 })
-    | some (false, k) => some (.suspended, k)
+    | some (true, w) => some (.completed, { k with w := w, execTasks := (k.execTasks.remove etid).2 })
+    | some (false, w) => some (.suspended, { k with w := w })
+  | some (.legacy b) =>
+    match pollAt depthFuel (.root etid) .core b k.w with
+    | none => none
+    | some (.ready _, w) => some (.completed, { k with w := w, execTasks := (k.execTasks.remove etid).2 })
+    | some (.pending b', w) => some (.suspended, { k with w := w, execTasks := k.execTasks.set etid (.legacy b') })
 
 def execDrainSpawn : Nat → Core → Bool → Option (Core × Bool)
   | 0, _, _ => none
   | f + 1, k, did =>
-    match k.execSpawn with
+    match k.w.execSpawn with
     | [] => some (k, did)
-    | cid :: rest =>
-      let (etid, tasks) := k.execTasks.insert cid
-      match execRunTask etid { k with execSpawn := rest, execTasks := tasks } with
+    | t :: rest =>
+      let (etid, tasks) := k.execTasks.insert t
+      match execRunTask etid { k with w := { k.w with execSpawn := rest }, execTasks := tasks } with
       | none => none
       | some (_, k) => execDrainSpawn f k true
 
@@ -739,19 +777,22 @@ def runAll : Nat → Core → Option Core
 
 /-- `app.update` of the DSL app + `command_spawner.spawn(command)` -/
 def update (ev : Ev) (k : Core) : Core :=
-  let cmd := match k.prog.find? (·.1 == ev.tag) with
-    | some (_, c) => c
-    | none => Cmd.done
-  let (cid, w) := instantiate { vars := [(0, ev.v)] } cmd k.w
-  { k with w := w, log := k.log ++ [ev], execSpawn := k.execSpawn ++ [cid] }
+  let (cmd, legacy) := match k.prog.find? (·.1 == ev.tag) with
+    | some (_, c, ls) => (c, ls)
+    | none => (Cmd.done, [])
+  let env : Env := { vars := [(0, ev.v)] }
+  -- legacy capability calls spawn inside `update`; the returned command is spawned after it
+  let w := { k.w with execSpawn := k.w.execSpawn ++ legacy.map fun is => ExecTask.legacy (.mk env .idle is) }
+  let (cid, w) := instantiate env cmd w
+  { k with w := { w with execSpawn := w.execSpawn ++ [.cmd cid] }, log := k.log ++ [ev] }
 
 def processLoop : Nat → Core → Option Core
   | 0, _ => none
   | f + 1, k =>
-    match k.capEvents with
+    match k.w.coreEvents with
     | [] => some k
     | ev :: rest =>
-      match runAll loopFuel (update ev { k with capEvents := rest }) with
+      match runAll loopFuel (update ev { k with w := { k.w with coreEvents := rest } }) with
       | none => none
       | some k => processLoop f k
 
@@ -762,7 +803,7 @@ def process (k : Core) : Option (List Eff × Core) :=
   | some k =>
     match processLoop loopFuel k with
     | none => none
-    | some k => some (k.requests, { k with requests := [] })
+    | some k => some (k.w.coreEffects, { k with w := { k.w with coreEffects := [] } })
 
 /-- `Core::process_event` -/
 def processEvent (ev : Ev) (k : Core) : Option (List Eff × Core) := process (update ev k)
